@@ -176,6 +176,7 @@ class Interp:
         self.top_qual = top_qual
         self.depth = 0
         self.pre_snapshot = None
+        self.all_snaps = []
         self.use_old = False
         self.call_log = []
 
@@ -866,22 +867,53 @@ class Interp:
             return SBuiltin("exc:binascii.Error")
         raise Unsupported("module attribute %s" % full)
 
+    def materialise(self, ov, name):
+        """lazily create the ENTRY-state value of a field of a symbolic input object from its declared shape"""
+        ho = self.ctx.obj(ov)
+        if not ho.lazy or name in ho.ghost:
+            return
+        snap = self.pre_snapshot.get(ov.oid) if self.pre_snapshot is not None else None
+        written = any(o == ov.oid and f == name for o, f in self.ctx.writes)
+        if snap is not None:
+            if name in snap[0] or name in snap[2]:
+                return
+        elif name in ho.fields or name in ho.absent:
+            return
+        if snap is None and written:
+            return
+        t = self.ctx.verifier.field_type(ho, name)
+        if t is None:
+            return
+        ts, owner = t
+        optional = ts.endswith("?")
+        if optional:
+            ts = ts[:-1]
+        label = "%s.%s" % (ho.label or "o%d" % ho.oid, name)
+        val = self.ctx.verifier.mkval(self, (ts, owner), label)
+        pres = z3.Bool("has." + label) if optional else None
+        if not written and name not in ho.fields:
+            ho.fields[name] = val
+            if pres is not None:
+                ho.present[name] = pres
+        for sn in self.all_snaps:
+            e = sn.get(ov.oid)
+            if e is not None and name not in e[0] and name not in e[2]:
+                e[0][name] = val
+                if pres is not None:
+                    e[1][name] = pres
+
     def obj_getattr(self, ov, name, pure=False):
         ho = self.ctx.obj(ov)
+        self.materialise(ov, name)
         if self.use_old and self.pre_snapshot is not None and ov.oid in self.pre_snapshot:
             fields, present, absent = self.pre_snapshot[ov.oid]
-            if name in fields:
-                return fields[name]
-        if name in ho.fields and not (self.use_old and self.pre_snapshot is not None):
-            if name in ho.present:
-                p = ho.present[name]
-                if pure:
-                    return ho.fields[name]
-                if not self.ctx.branch(p, "hasattr-" + name):
+        else:
+            fields, present, absent = ho.fields, ho.present, ho.absent
+        if name in fields:
+            if name in present and not pure:
+                if not self.ctx.branch(present[name], "hasattr-" + name):
                     raise Raise("AttributeError")
-            return ho.fields[name]
-        if name in ho.fields:
-            return ho.fields[name]
+            return fields[name]
         if name in ho.ghost:
             return ho.ghost[name]
         # methods / class attributes
@@ -901,14 +933,6 @@ class Interp:
             q = "%s.%s" % (ho.cls, name)
             if self.reg.get(q) is not None:
                 return SBuiltin("abstract:" + q, ov)
-        if ho.lazy and name not in ho.absent:
-            t = self.ctx.verifier.field_type(ho, name)
-            if t is not None:
-                val = self.ctx.verifier.mkval(self, t, "%s.%s" % (ho.label or "o%d" % ho.oid, name))
-                ho.fields[name] = val
-                if self.pre_snapshot is not None and ov.oid in self.pre_snapshot:
-                    self.pre_snapshot[ov.oid][0].setdefault(name, val)
-                return val
         if pure:
             raise Unsupported("spec reads missing attribute %s of %s" % (name, ho.clsname()))
         raise Raise("AttributeError")
@@ -972,6 +996,7 @@ class Interp:
 
     def hasfield(self, o, name):
         ho = self.ctx.obj(o)
+        self.materialise(o, name)
         if self.use_old and self.pre_snapshot is not None and o.oid in self.pre_snapshot:
             fields, present, absent = self.pre_snapshot[o.oid]
         else:
